@@ -123,6 +123,8 @@ pub struct Spec {
     /// the responder accepted the version with peer sharing disabled: mini-protocol 10 does
     /// not exist on this connection
     pub ps_off: bool,
+    /// the responder refused the proposal: the connection carries no mini-protocol at all
+    pub refused: bool,
 }
 
 impl Spec {
@@ -131,6 +133,9 @@ impl Spec {
     pub fn client_sends(&mut self, m: &AnyMessage) -> Result<(), String> {
         use proto::*;
         let bad = |p: &str, st: u8| Err(format!("{p}: client may not send this message in state #{st}"));
+        if self.refused && !matches!(m, AnyMessage::Handshake(_)) {
+            return Err("the responder refused the handshake: no mini-protocol may be spoken on this connection".into());
+        }
         match m {
             AnyMessage::Handshake(handshake::Message::Propose(_)) if self.hs == 0 => self.hs = 1,
             AnyMessage::Handshake(_) => return bad("handshake", self.hs),
@@ -204,7 +209,11 @@ impl Spec {
 
     pub fn server_sends(&mut self, r: R) {
         match r {
-            R::Accept | R::AcceptLeios | R::Refuse => self.hs = 2,
+            R::Accept | R::AcceptLeios => self.hs = 2,
+            R::Refuse => {
+                self.hs = 2;
+                self.refused = true;
+            }
             R::AcceptNoSharing => {
                 self.hs = 2;
                 self.ps_off = true;
